@@ -27,27 +27,27 @@ theorem C01_success_only_if_done (o : Ora) (i : In) (h : successOut (callback o 
   · simp at hout
   rename_i hid
   split at hout
-  · simp [failedMsg, makeResponse] at hout; obtain ⟨_, hm, _⟩ := hout; subst hm; simp [statusSuccess, statusRequestDenied] at hst
+  · simp [failedMsg, mkResponse] at hout; obtain ⟨_, hm, _⟩ := hout; subst hm; simp [statusSuccess, statusRequestDenied] at hst
   rename_i rec hrec
   split at hout
   · simp at hout
   rename_i aud hent
   dsimp only at hout
   split at hout
-  · simp [failedMsg, makeResponse] at hout; obtain ⟨_, hm, _⟩ := hout; subst hm; simp [statusSuccess, statusAuthnFailed] at hst
+  · simp [failedMsg, mkResponse] at hout; obtain ⟨_, hm, _⟩ := hout; subst hm; simp [statusSuccess, statusAuthnFailed] at hst
   rename_i hdone
   split at hout
-  · simp [failedMsg, makeResponse] at hout; obtain ⟨_, hm, _⟩ := hout; subst hm; simp [statusSuccess, statusInvalidAttr] at hst
+  · simp [failedMsg, mkResponse] at hout; obtain ⟨_, hm, _⟩ := hout; subst hm; simp [statusSuccess, statusInvalidAttr] at hst
   rename_i attrs hui
   split at hout
   · simp at hout
   rename_i cert key kerr hkey
   split at hout
-  · simp [failedMsg, makeResponse] at hout; obtain ⟨_, hm, _⟩ := hout; subst hm; simp [statusSuccess, statusInvalidAttr] at hst
+  · simp [failedMsg, mkResponse] at hout; obtain ⟨_, hm, _⟩ := hout; subst hm; simp [statusSuccess, statusInvalidAttr] at hst
   rename_i hkerr
   split at hout
   · split at hout
-    · simp [makeResponse] at hout; obtain ⟨_, hm, _⟩ := hout; subst hm; simp [statusSuccess, statusResponder] at hst
+    · simp [mkResponse] at hout; obtain ⟨_, hm, _⟩ := hout; subst hm; simp [statusSuccess, statusResponder] at hst
     · rename_i hsign
       have hk : kerr = none := by cases kerr <;> simp_all
       subst hk
@@ -64,22 +64,22 @@ theorem C01_no_leak (o : Ora) (i : In) (d : Delivery) (m : Msg) (s : Sig) (h : c
   split at h
   · simp at h
   split at h
-  · simp [failedMsg, makeResponse] at h; obtain ⟨_, hm, hs⟩ := h; subst hm; exact ⟨rfl, hs.symm⟩
+  · simp [failedMsg, mkResponse] at h; obtain ⟨_, hm, hs⟩ := h; subst hm; exact ⟨rfl, hs.symm⟩
   split at h
   · simp at h
   dsimp only at h
   split at h
-  · simp [failedMsg, makeResponse] at h; obtain ⟨_, hm, hs⟩ := h; subst hm; exact ⟨rfl, hs.symm⟩
+  · simp [failedMsg, mkResponse] at h; obtain ⟨_, hm, hs⟩ := h; subst hm; exact ⟨rfl, hs.symm⟩
   split at h
-  · simp [failedMsg, makeResponse] at h; obtain ⟨_, hm, hs⟩ := h; subst hm; exact ⟨rfl, hs.symm⟩
+  · simp [failedMsg, mkResponse] at h; obtain ⟨_, hm, hs⟩ := h; subst hm; exact ⟨rfl, hs.symm⟩
   split at h
   · simp at h
   split at h
-  · simp [failedMsg, makeResponse] at h; obtain ⟨_, hm, hs⟩ := h; subst hm; exact ⟨rfl, hs.symm⟩
+  · simp [failedMsg, mkResponse] at h; obtain ⟨_, hm, hs⟩ := h; subst hm; exact ⟨rfl, hs.symm⟩
   split at h
   · split at h
-    · simp [makeResponse] at h; obtain ⟨_, hm, hs⟩ := h; subst hm; exact ⟨rfl, hs.symm⟩
-    · simp [makeResponse] at h; obtain ⟨_, hm, _⟩ := h; subst hm; simp at hns
+    · simp [mkResponse] at h; obtain ⟨_, hm, hs⟩ := h; subst hm; exact ⟨rfl, hs.symm⟩
+    · simp [mkResponse] at h; obtain ⟨_, hm, _⟩ := h; subst hm; simp at hns
   · simp at h
 
 /-- a Success status and an assertion always come together, and then the reply is signed -/
@@ -91,22 +91,22 @@ theorem C01_success_has_signed_assertion (o : Ora) (i : In) (d : Delivery) (m : 
   split at h
   · simp at h
   split at h
-  · simp [failedMsg, makeResponse] at h; obtain ⟨_, hm, _⟩ := h; subst hm; simp [statusSuccess, statusRequestDenied] at hs
+  · simp [failedMsg, mkResponse] at h; obtain ⟨_, hm, _⟩ := h; subst hm; simp [statusSuccess, statusRequestDenied] at hs
   split at h
   · simp at h
   dsimp only at h
   split at h
-  · simp [failedMsg, makeResponse] at h; obtain ⟨_, hm, _⟩ := h; subst hm; simp [statusSuccess, statusAuthnFailed] at hs
+  · simp [failedMsg, mkResponse] at h; obtain ⟨_, hm, _⟩ := h; subst hm; simp [statusSuccess, statusAuthnFailed] at hs
   split at h
-  · simp [failedMsg, makeResponse] at h; obtain ⟨_, hm, _⟩ := h; subst hm; simp [statusSuccess, statusInvalidAttr] at hs
+  · simp [failedMsg, mkResponse] at h; obtain ⟨_, hm, _⟩ := h; subst hm; simp [statusSuccess, statusInvalidAttr] at hs
   split at h
   · simp at h
   split at h
-  · simp [failedMsg, makeResponse] at h; obtain ⟨_, hm, _⟩ := h; subst hm; simp [statusSuccess, statusInvalidAttr] at hs
+  · simp [failedMsg, mkResponse] at h; obtain ⟨_, hm, _⟩ := h; subst hm; simp [statusSuccess, statusInvalidAttr] at hs
   split at h
   · split at h
-    · simp [makeResponse] at h; obtain ⟨_, hm, _⟩ := h; subst hm; simp [statusSuccess, statusResponder] at hs
-    · simp [makeResponse] at h
+    · simp [mkResponse] at h; obtain ⟨_, hm, _⟩ := h; subst hm; simp [statusSuccess, statusResponder] at hs
+    · simp [mkResponse] at h
       obtain ⟨_, hm, hsig⟩ := h
       subst hm hsig
       refine ⟨rfl, ?_⟩
@@ -230,7 +230,7 @@ theorem C01_history (ops : List SysOp) (id : String) (entity : Option String) (u
 theorem C01_source_current : Consts.current = true ∧
     FactsUtil.sameHashes ["provider.IdentityProvider.callbackHandleFunc", "provider.IdentityProvider.loginResponse",
       "provider.IdentityProvider.errorResponse", "provider.Response.makeFailedResponse", "provider.Response.makeSuccessfulResponse",
-      "provider.Response.makeAssertionResponse", "provider.makeAssertion", "provider.makeResponse", "provider.createSignature",
+      "provider.Response.makeAssertionResponse", "provider.createSignature",
       "provider.Response.sendBackResponse"] = true := ⟨by decide, by decide⟩
 
 /-- non-vacuity: a done record with all oracles succeeding yields a signed Success reply; a pending one AuthnFailed -/
